@@ -242,6 +242,67 @@ example : exPR.nodes.Nodup ∧ exPR.nodes ≠ [] ∧ (exPR.nodes.map fun _ => (1
 example : prStep ratOps exPR (17 / 20) (fun _ => 1 / 3) 1 = 19 / 40 := by
   rw [prStep_rat]; norm_num [exPR, prIncoming, outCount]
 
+/-- The two step theorems lifted to the returned value: for `0 ≤ damping ≤ 1`, any tolerance and any
+iteration limit, the scores returned by the mirror (at `Rat`) are non-negative and sum to 1. -/
+theorem pagerank_output_nonneg_sum_one (G : Graph) (d tol : Rat) (maxIter : Nat) (hn : G.nodes.Nodup)
+    (hne : G.nodes ≠ []) (hd0 : 0 ≤ d) (hd1 : d ≤ 1) :
+    (∀ v ∈ G.nodes, 0 ≤ aget (pagerank ratOps G d tol maxIter).scores v 0) ∧
+    (G.nodes.map fun v => aget (pagerank ratOps G d tol maxIter).scores v 0).sum = 1 := by
+  have hz : ratOps.ofNat 0 = 0 := by simp [ratOps]
+  have loop : ∀ (r it : Nat) (sc : List (Nat × Rat)) (md : Rat),
+      (∀ v ∈ G.nodes, 0 ≤ aget sc v 0) → (G.nodes.map fun v => aget sc v 0).sum = 1 →
+      (∀ v ∈ G.nodes, 0 ≤ aget (prLoop ratOps G d tol r it sc md).scores v 0) ∧
+      (G.nodes.map fun v => aget (prLoop ratOps G d tol r it sc md).scores v 0).sum = 1 := by
+    intro r
+    induction r with
+    | zero => intro it sc md h1 h2; exact ⟨h1, h2⟩
+    | succ r ih =>
+      intro it sc md h1 h2
+      have hnew : ∀ v ∈ G.nodes,
+          aget (G.nodes.map fun v => (v, prStep ratOps G d (fun v => aget sc v (ratOps.ofNat 0)) v)) v 0
+            = prStep ratOps G d (fun v => aget sc v 0) v := by
+        intro v hv
+        rw [aget_map_self G.nodes _ 0 hv, hz]
+      have g1 : ∀ v ∈ G.nodes, 0 ≤
+          aget (G.nodes.map fun v => (v, prStep ratOps G d (fun v => aget sc v (ratOps.ofNat 0)) v)) v 0 := by
+        intro v hv
+        rw [hnew v hv]
+        exact pagerank_step_nonneg G d _ hd0 hd1 h1 v
+      have g2 : (G.nodes.map fun v =>
+          aget (G.nodes.map fun v => (v, prStep ratOps G d (fun v => aget sc v (ratOps.ofNat 0)) v)) v 0).sum = 1 := by
+        rw [List.map_congr_left hnew]
+        exact pagerank_step_sum_one G d _ hn hne h2
+      unfold prLoop
+      simp only
+      split
+      · exact ⟨g1, g2⟩
+      · exact ih _ _ _ g1 g2
+  unfold pagerank
+  have hemp : G.nodes.isEmpty = false := by
+    cases h : G.nodes with
+    | nil => exact absurd h hne
+    | cons a l => rfl
+  simp only [hemp, Bool.false_eq_true, if_false]
+  have hlen : (G.nodes.length : Rat) ≠ 0 := by
+    have : G.nodes.length ≠ 0 := fun h => hne (List.eq_nil_of_length_eq_zero h)
+    exact_mod_cast this
+  have hinit : ∀ v ∈ G.nodes,
+      aget (G.nodes.map fun v => (v, ratOps.div (ratOps.ofNat 1) (ratOps.ofNat G.nodes.length))) v 0
+        = 1 / (G.nodes.length : Rat) := by
+    intro v hv
+    rw [aget_map_self G.nodes _ 0 hv]; simp [ratOps]
+  apply loop
+  · intro v hv
+    rw [hinit v hv]
+    exact div_nonneg (by norm_num) (by exact_mod_cast Nat.zero_le _)
+  · rw [List.map_congr_left hinit]
+    have : ∀ (l : List Nat) (c : Rat), (l.map fun _ => c).sum = (l.length : Rat) * c := by
+      intro l c
+      induction l with
+      | nil => simp
+      | cons a l ih => simp only [List.map_cons, List.sum_cons, ih, List.length_cons]; push_cast; ring
+    rw [this]; field_simp
+
 /-- C15 [S] `pagerank_contraction`: the iteration is a contraction in the L1 norm with factor
 `damping` (so for damping < 1 the damped PageRank equation has exactly one solution and the power
 iteration converges to it). -/
